@@ -325,12 +325,12 @@ def dur_text_round_trip(d, parser):
 
 
 def timepoint_text_round_trip(p, dumper, parser):
-    # C08: the REAL default dump format, the REAL dumper and the REAL parser composed
-    s = dumper.dump(p, p._get_dump_format())
+    # C08: the REAL str (default dump format, shared dumper) and the REAL parser composed
+    s = str(p)
     q = parser.parse(s)
     assert tp_same_fields(q, p)
     assert q == p
-    assert dumper.dump(q, q._get_dump_format()) == s
+    assert str(q) == s
 
 
 def parse_dump_as_parsed(parser, dumper, text):
